@@ -127,9 +127,9 @@ func c14argFor(r *rand.Rand, kind string, n *int) c14arg {
 
 func c14n(tier string) int {
 	if tier == "thorough" {
-		return 120000
+		return 1000000
 	}
-	return 4000
+	return 20000
 }
 
 func c14exec(src string) (jx.Res, []string) {
